@@ -398,9 +398,10 @@ static void compare(Result &r, const std::string &who, const Sys &s, const Varia
     if (!d.empty()) { r.out = "differ"; r.fail(who + ": run-time wrapper and the compile-time composition it is documented to select differ: " + d); return; }
     if (!rtA.thrown.empty()) { r.out = "both-throw " + rtA.thrown; r.nontrivial = false; r.fail(who + ": both compositions throw " + rtA.thrown + " (" + rtA.what.substr(0, 80) + ")"); return; }
     r.out = "same";
+    if (rtA.has_levels) r.out += " levels=" + std::to_string(rtA.lv.size());
     if (rtA.iters >= 2) r.tag("iters_ge2");
     if (expect_levels) {
-        if (rtA.lv.size() >= 2) r.tag("levels_ge2"); if (rtA.lv.size() >= 3) r.tag("levels_ge3");
+        if (rtA.lv.size() >= 2) r.tag("levels_ge2"); if (rtA.lv.size() >= 3) r.tag("levels_ge3"); if (rtA.lv.size() > 12) r.tag("deep_hierarchy");
         if (rtA.lv.size() < 2) r.fail("harness: model problem too small, single-level hierarchy (components never constructed)");
     }
 }
